@@ -1,9 +1,12 @@
 (* C03 -- each reply is the exact wire encoding of what the filesystem returned.
    Statements only; proofs in Proofs/Server*.v. *)
 From Coq Require Import List String NArith Bool.
-From FB Require Import Lib.Bytes Gen.RustDispatch Model.Server Proofs.ServerPerform Proofs.ServerReply Proofs.ServerDecide
-  Proofs.ServerDispatch.
+From FB Require Import Lib.Bytes Gen.RustDispatch Model.Server Model.ServerCmp Spec.Requests Spec.Replies
+  Proofs.ServerPerform Proofs.ServerReply Proofs.ServerDecide Proofs.ServerHandle
+  Proofs.ServerDispatch Proofs.ServerEncode Proofs.ServerEncodeDir Proofs.ServerEncodeLift.
 Import ListNotations.
+Local Open Scope string_scope.
+Local Open Scope list_scope.
 Local Open Scope N_scope.
 
 (* errors: the error field of an error reply is the negated errno, for every errno 1..4095 *)
@@ -23,6 +26,261 @@ Proof. exact model_error_kinds. Qed.
 Theorem C03_error_kind_valid : forall k, 1 <= encode_io_error_kind k <= 4095.
 Proof. exact kind_errno_range. Qed.
 
+
+(* ====================================================================== universal round trips
+   [reply_ok q minor fs msg] (Spec/Replies.v) is the kernel-side decoder: it reads the reply
+   message by field NAME through the kernel struct tables and compares with the filesystem
+   result [fs].  Below, for ALL values, the bytes the model's encoders produce are accepted.
+   [u] is the request's unique; the only side condition on it is that it is a 64-bit value. *)
+
+(* --- errors: FErr (Os n) for every n, FErr (Kind k) for every k *)
+Theorem C03_rt_err : forall q minor, q_unique q < 2 ^ 64 -> forall e,
+  reply_ok q minor (FErr e) (out_header 16 (neg32 (errno_of e)) (q_unique q)) = true.
+Proof. exact rt_err. Qed.
+
+(* --- success replies, one per result kind: header(16 + body length, 0, unique) ++ body *)
+Theorem C03_rt_unit : forall q minor, q_unique q < 2 ^ 64 ->
+  reply_ok q minor FUnit (out_header (16 + blen []) 0 (q_unique q) ++ []) = true.
+Proof. exact rt_unit. Qed.
+
+(* entries (LOOKUP, SYMLINK, MKNOD, MKDIR, LINK): 128 bytes incl. attr flags and both timeouts;
+   the exception is a negative entry to a pre-7.4 client on LOOKUP, answered ENOENT *)
+Theorem C03_rt_entry : forall q minor, q_unique q < 2 ^ 64 -> forall e,
+  (q_op q =? 1) && (minor <? 4) && (e_inode e =? 0) = false ->
+  reply_ok q minor (FEntry e)
+    (out_header (16 + blen (entry_out e (e_attr_flags e))) 0 (q_unique q) ++ entry_out e (e_attr_flags e)) = true.
+Proof. exact rt_entry. Qed.
+Theorem C03_rt_entry_enoent : forall q minor, q_unique q < 2 ^ 64 -> forall e,
+  (q_op q =? 1) && (minor <? 4) && (e_inode e =? 0) = true ->
+  reply_ok q minor (FEntry e) (out_header 16 (neg32 ENOENT) (q_unique q)) = true.
+Proof. exact rt_entry_enoent. Qed.
+
+Theorem C03_rt_attr : forall q minor, q_unique q < 2 ^ 64 -> forall st s n,
+  reply_ok q minor (FAttr st s n)
+    (out_header (16 + blen (attr_out st s n)) 0 (q_unique q) ++ attr_out st s n) = true.
+Proof. exact rt_attr. Qed.
+
+(* readlink / xattr value / xattr name list, and read data: the bytes themselves *)
+Theorem C03_rt_bytes : forall q minor, q_unique q < 2 ^ 64 -> forall v, 16 + blen v < 2 ^ 32 ->
+  reply_ok q minor (FBytes v) (out_header (16 + blen v) 0 (q_unique q) ++ v) = true.
+Proof. exact rt_bytes. Qed.
+Theorem C03_rt_read : forall q minor, q_unique q < 2 ^ 64 -> forall d, 16 + blen d < 2 ^ 32 ->
+  reply_ok q minor (FRead d) (out_header (16 + blen d) 0 (q_unique q) ++ d) = true.
+Proof. exact rt_read. Qed.
+
+(* write count (fuse_write_out) and xattr size query (fuse_getxattr_out): for every opcode *)
+Theorem C03_rt_count : forall q minor, q_unique q < 2 ^ 64 -> forall n,
+  reply_ok q minor (FCount n) (out_header (16 + blen (enc 4 n ++ enc 4 0)) 0 (q_unique q) ++ enc 4 n ++ enc 4 0) = true.
+Proof. exact rt_count. Qed.
+
+(* OPEN carries the passthrough value in the padding word; OPENDIR never does *)
+Theorem C03_rt_open : forall q minor, q_unique q < 2 ^ 64 -> forall fh o pt, (q_op q =? 27) = false ->
+  reply_ok q minor (FOpen fh o pt)
+    (out_header (16 + blen (open_out fh o pt)) 0 (q_unique q) ++ open_out fh o pt) = true.
+Proof. exact rt_open. Qed.
+Theorem C03_rt_opendir : forall q minor, q_unique q < 2 ^ 64 -> forall fh o pt, (q_op q =? 27) = true ->
+  reply_ok q minor (FOpen fh o pt)
+    (out_header (16 + blen (open_out fh o None)) 0 (q_unique q) ++ open_out fh o None) = true.
+Proof. exact rt_opendir. Qed.
+
+Theorem C03_rt_create : forall q minor, q_unique q < 2 ^ 64 -> forall e fh o pt,
+  reply_ok q minor (FCreate e fh o pt)
+    (out_header (16 + blen (entry_out e (e_attr_flags e) ++ open_out fh o pt)) 0 (q_unique q) ++
+     entry_out e (e_attr_flags e) ++ open_out fh o pt) = true.
+Proof. exact rt_create. Qed.
+
+Theorem C03_rt_statfs : forall q minor, q_unique q < 2 ^ 64 -> forall s,
+  reply_ok q minor (FStatfs s) (out_header (16 + blen (kstatfs_bytes s)) 0 (q_unique q) ++ kstatfs_bytes s) = true.
+Proof. exact rt_statfs. Qed.
+
+Theorem C03_rt_lock : forall q minor, q_unique q < 2 ^ 64 -> forall l,
+  reply_ok q minor (FLock l) (out_header (16 + blen (flock_bytes l)) 0 (q_unique q) ++ flock_bytes l) = true.
+Proof. exact rt_lock. Qed.
+
+Theorem C03_rt_ioctl : forall q minor, q_unique q < 2 ^ 64 -> forall res d, 32 + blen d < 2 ^ 32 ->
+  reply_ok q minor (FIoctl res d)
+    (out_header (16 + blen (enc 4 res ++ enc 12 0 ++ d)) 0 (q_unique q) ++ enc 4 res ++ enc 12 0 ++ d) = true.
+Proof. exact rt_ioctl. Qed.
+
+(* BMAP block / LSEEK offset (8 bytes), POLL revents (4 + 4 bytes) *)
+Theorem C03_rt_bmap_lseek : forall q minor, q_unique q < 2 ^ 64 -> forall n, (q_op q =? 40) = false ->
+  reply_ok q minor (FNum n) (out_header (16 + blen (enc 8 n)) 0 (q_unique q) ++ enc 8 n) = true.
+Proof. exact rt_num8. Qed.
+Theorem C03_rt_poll : forall q minor, q_unique q < 2 ^ 64 -> forall n, (q_op q =? 40) = true ->
+  reply_ok q minor (FNum n) (out_header (16 + blen (enc 4 n ++ enc 4 0)) 0 (q_unique q) ++ enc 4 n ++ enc 4 0) = true.
+Proof. exact rt_poll. Qed.
+
+(* --- directory replies, for every entry list (induction over the list), flag and size:
+   at most [size] bytes, a multiple of 8, exactly the records of the longest fitting prefix.
+   [names_ok ds]: every name length is below 2^32 (the width of the namelen field). *)
+Theorem C03_dirents : forall ds plus size, names_ok ds = true ->
+  let p := fill_dirents ds plus size [] in
+  blen p <= size /\ blen p mod 8 = 0 /\ dirents_are plus (fitting_prefix plus ds size) p = true.
+Proof. exact fill_dirents_ok. Qed.
+
+(* the model's bit-mask padding = the specification's arithmetic rounding *)
+Theorem C03_pad8 : forall n, n + 7 < 2 ^ 64 -> pad8 n = ((n + 7) / 8) * 8.
+Proof. exact pad8_spec. Qed.
+
+Theorem C03_rt_dirents : forall q minor ds, q_unique q < 2 ^ 64 -> names_ok ds = true ->
+  let data := fill_dirents ds (q_op q =? 44) (fld q "size") [] in
+  16 + blen data < 2 ^ 32 ->
+  reply_ok q minor (FDirents ds) (out_header (16 + blen data) 0 (q_unique q) ++ data) = true.
+Proof. exact rt_dirents. Qed.
+
+(* ====================================================================== through the model
+   [post_action op minor cap size fs]: the reply action of opcode [op] once the filesystem
+   answered [fs] (Proofs/ServerEncodeLift.v; None for opcodes that never send the
+   filesystem's result).  "The handler reached its filesystem call" = its call list is not empty. *)
+Theorem C03_handler_action : forall cfg h ctx r fr wcap a,
+  fst (handler cfg h ctx r fr wcap) <> [] ->
+  post_action (h_opcode h) (cfg_minor cfg) wcap (u32 16 r) fr = Some a ->
+  snd (handler cfg h ctx r fr wcap) = a.
+Proof. exact handler_post. Qed.
+
+(* with enough room, the single packet of an action is header ++ body / the bare error header;
+   for READ and READDIR (ReplySplit) this is header(16 + count) ++ exactly the bytes produced *)
+Theorem C03_perform_packet : forall cap u a p,
+  cap < 2 ^ 32 -> action_msg u a = Some p -> action_len a <= cap ->
+  o_packets (perform FuseDev cap u a) = [p].
+Proof. exact perform_packet. Qed.
+Theorem C03_read_reply_exact : forall cap u data, cap < 2 ^ 32 -> 16 + blen data <= cap ->
+  o_packets (perform FuseDev cap u (ReplySplit data)) = [out_header (16 + blen data) 0 u ++ data].
+Proof. exact perform_split_packet. Qed.
+Theorem C03_perform_mem_virtio : forall cap u a p,
+  cap < 2 ^ 32 -> action_msg u a = Some p -> action_len a <= cap ->
+  o_mem (perform Virtio cap u a) = p.
+Proof. exact perform_mem_virtio. Qed.
+
+(* the action of every opcode round-trips for every result kind that opcode returns *)
+Theorem C03_action_roundtrip : forall q minor cap fs a,
+  q_unique q < 2 ^ 64 -> cap < 2 ^ 32 ->
+  kind_ok (q_op q) fs = true -> fits q cap fs ->
+  post_action (q_op q) minor cap (fld q "size") fs = Some a -> action_len a <= cap ->
+  exists p, action_msg (q_unique q) a = Some p /\ reply_ok q minor fs p = true.
+Proof. exact post_action_roundtrip. Qed.
+
+(* The property on the model of handle_message, for ALL request bytes [req]: if the request
+   carries the opcode / unique / size of [q], the operation was called (two calls: the id
+   translation and the operation), the filesystem answered [fs] of a kind that operation
+   returns ([kind_ok]; [fits]: read data / directory records fit the buffer, names < 2^32
+   bytes) and the reply fits the reply buffer, then exactly one packet reaches /dev/fuse and
+   the kernel-side decoder reads [fs] back out of it. *)
+Theorem C03_roundtrip : forall cfg cap req q fs,
+  q_unique q < 2 ^ 64 -> cap < 2 ^ 32 ->
+  u32 4 req = q_op q -> u64 8 req = q_unique q -> u32 56 req = fld q "size" ->
+  kind_ok (q_op q) fs = true -> fits q cap fs ->
+  (2 <= List.length (h_calls (handle cfg FuseDev cap req fs)))%nat ->
+  action_len (snd (fst (decide cfg req fs cap))) <= cap ->
+  exists p, o_packets (h_outcome (handle cfg FuseDev cap req fs)) = [p] /\
+            reply_ok q (cfg_minor cfg) fs p = true.
+Proof. exact handle_roundtrip. Qed.
+
+Theorem C03_roundtrip_virtio : forall cfg cap req q fs,
+  q_unique q < 2 ^ 64 -> cap < 2 ^ 32 ->
+  u32 4 req = q_op q -> u64 8 req = q_unique q -> u32 56 req = fld q "size" ->
+  kind_ok (q_op q) fs = true -> fits q cap fs ->
+  (2 <= List.length (h_calls (handle cfg Virtio cap req fs)))%nat ->
+  action_len (snd (fst (decide cfg req fs cap))) <= cap ->
+  reply_ok q (cfg_minor cfg) fs (o_mem (h_outcome (handle cfg Virtio cap req fs))) = true.
+Proof. exact handle_roundtrip_virtio. Qed.
+
+(* LOOKUP, SYMLINK, MKNOD, MKDIR, LINK, CREATE and READDIRPLUS all encode an entry with the
+   same function, [entry_out e (e_attr_flags e)] *)
+Theorem C03_entry_paths_agree :
+  (forall cfg h ctx r wcap e,
+     In (h_opcode h) [1; 6; 8; 9; 13] ->
+     fst (handler cfg h ctx r (FEntry e) wcap) <> [] ->
+     (h_opcode h =? 1) && (cfg_minor cfg <? 4) && (e_inode e =? 0) = false ->
+     snd (handler cfg h ctx r (FEntry e) wcap) = ReplyOk (entry_out e (e_attr_flags e))) /\
+  (forall cfg h ctx r wcap e fh o pt,
+     h_opcode h = 35 ->
+     fst (handler cfg h ctx r (FCreate e fh o pt) wcap) <> [] ->
+     snd (handler cfg h ctx r (FCreate e fh o pt) wcap) =
+     ReplyOk (entry_out e (e_attr_flags e) ++ open_out fh o pt)) /\
+  (forall cfg h ctx r wcap ds,
+     h_opcode h = 44 ->
+     fst (handler cfg h ctx r (FDirents ds) wcap) <> [] ->
+     let data := fill_dirents ds true (u32 16 r) [] in
+     blen data <= wcap - 16 ->
+     snd (handler cfg h ctx r (FDirents ds) wcap) = ReplySplit data) /\
+  (forall ds size, names_ok ds = true ->
+     fill_dirents ds true size [] = flat_map (rec_bytes true) (fitting_prefix true ds size)) /\
+  (forall d e, rec_bytes true (d, e) = entry_out e (e_attr_flags e) ++ rec_bytes false (d, e)).
+Proof. exact entry_paths_agree. Qed.
+
+(* non-vacuity: the hypotheses of C03_roundtrip hold for a real LOOKUP and a real READDIRPLUS
+   request (built with the kernel-side encoder of Spec/Requests.v), and of C03_dirents for a
+   list that does not fit entirely *)
+Definition ex_cfg : config := {| cfg_minor := 33; cfg_remap := RemapOk 0 0; cfg_vu_req := false; cfg_fsopt_mask := 0 |}.
+Definition ex_stat : stat :=
+  {| st_ino := 7; st_size := 4096; st_blocks := 8; st_atime := 1; st_mtime := 2; st_ctime := 3;
+     st_atime_nsec := 4; st_mtime_nsec := 5; st_ctime_nsec := 6; st_mode := 33188; st_nlink := 1;
+     st_uid := 1000; st_gid := 1000; st_rdev := 0; st_blksize := 4096 |}.
+Definition ex_entry : entry :=
+  {| e_inode := 7; e_generation := 1; e_attr := ex_stat; e_attr_flags := 1;
+     e_attr_secs := 5; e_attr_nsecs := 6; e_entry_secs := 7; e_entry_nsecs := 8 |}.
+Definition ex_lookup : wfreq :=
+  {| q_op := 1; q_unique := 99; q_nodeid := 1; q_uid := 0; q_gid := 0; q_pid := 1; q_fields := [];
+     q_name1 := [97; 98]; q_name2 := []; q_payload := []; q_pairs := []; q_flags2 := None |}.
+Definition ex_readdirplus : wfreq :=
+  {| q_op := 44; q_unique := 100; q_nodeid := 1; q_uid := 0; q_gid := 0; q_pid := 1;
+     q_fields := [("fh", 3); ("offset", 0); ("size", 400)];
+     q_name1 := []; q_name2 := []; q_payload := []; q_pairs := []; q_flags2 := None |}.
+Definition ex_dirents : list (dirent * entry) :=
+  [({| d_ino := 7; d_off := 1; d_type := 8; d_name := [97] |}, ex_entry);
+   ({| d_ino := 8; d_off := 2; d_type := 4; d_name := [98; 99; 100; 101; 102; 103; 104; 105; 106] |}, ex_entry);
+   ({| d_ino := 9; d_off := 3; d_type := 8; d_name := [120] |}, ex_entry)].
+
+Example C03_roundtrip_nonvacuous_lookup :
+  let q := ex_lookup in let req := encode_req q in let fs := FEntry ex_entry in
+  q_unique q < 2 ^ 64 /\ 8192 < 2 ^ 32 /\
+  u32 4 req = q_op q /\ u64 8 req = q_unique q /\ u32 56 req = fld q "size" /\
+  kind_ok (q_op q) fs = true /\ fits q 8192 fs /\
+  Nat.leb 2 (List.length (h_calls (handle ex_cfg FuseDev 8192 req fs))) = true /\
+  (action_len (snd (fst (decide ex_cfg req fs 8192))) <=? 8192) = true.
+Proof. vm_compute. repeat split; reflexivity. Qed.
+
+Example C03_roundtrip_nonvacuous_readdirplus :
+  let q := ex_readdirplus in let req := encode_req q in let fs := FDirents ex_dirents in
+  q_unique q < 2 ^ 64 /\ 8192 < 2 ^ 32 /\
+  u32 4 req = q_op q /\ u64 8 req = q_unique q /\ u32 56 req = fld q "size" /\
+  kind_ok (q_op q) fs = true /\
+  (names_ok ex_dirents = true /\ (16 + blen (fill_dirents ex_dirents (q_op q =? 44) (fld q "size") []) <=? 8192) = true) /\
+  Nat.leb 2 (List.length (h_calls (handle ex_cfg FuseDev 8192 req fs))) = true /\
+  (action_len (snd (fst (decide ex_cfg req fs 8192))) <=? 8192) = true /\
+  (* two of the three entries fit 400 bytes: 2 records = 160 + 168 bytes *)
+  List.length (fitting_prefix true ex_dirents 400) = 2%nat /\
+  blen (fill_dirents ex_dirents true 400 []) = 328.
+Proof. vm_compute. repeat split; reflexivity. Qed.
+
 Print Assumptions C03_errno_negated.
 Print Assumptions C03_error_kind_table.
 Print Assumptions C03_error_kind_valid.
+Print Assumptions C03_rt_err.
+Print Assumptions C03_rt_unit.
+Print Assumptions C03_rt_entry.
+Print Assumptions C03_rt_entry_enoent.
+Print Assumptions C03_rt_attr.
+Print Assumptions C03_rt_bytes.
+Print Assumptions C03_rt_read.
+Print Assumptions C03_rt_count.
+Print Assumptions C03_rt_open.
+Print Assumptions C03_rt_opendir.
+Print Assumptions C03_rt_create.
+Print Assumptions C03_rt_statfs.
+Print Assumptions C03_rt_lock.
+Print Assumptions C03_rt_ioctl.
+Print Assumptions C03_rt_bmap_lseek.
+Print Assumptions C03_rt_poll.
+Print Assumptions C03_dirents.
+Print Assumptions C03_pad8.
+Print Assumptions C03_rt_dirents.
+Print Assumptions C03_handler_action.
+Print Assumptions C03_perform_packet.
+Print Assumptions C03_read_reply_exact.
+Print Assumptions C03_perform_mem_virtio.
+Print Assumptions C03_action_roundtrip.
+Print Assumptions C03_roundtrip.
+Print Assumptions C03_roundtrip_virtio.
+Print Assumptions C03_entry_paths_agree.
